@@ -10,8 +10,8 @@ from checks import callcommon, ctxcommon
 from framework import Case
 
 PROP = "C11"
-GENERATED = ['DtypeTables', 'Core', 'SrcHints', 'SrcDecorate', 'HintLoop', 'Wrapper', 'Classes', 'SrcExpand']  # generated files this check's tie depends on
-LEAN_MODULES = ["Properties.C11", "Properties.Core", "Properties.Prov.Hints", "Properties.Prov.Decorate", "Properties.CoreHints", "Properties.CoreWrap", "Properties.CoreClasses", "Properties.Prov.Expand"]
+GENERATED = ['DtypeTables', 'Core', 'SrcHints', 'SrcDecorate', 'HintLoop', 'Wrapper', 'Classes', 'SrcExpand', 'Resolve']  # generated files this check's tie depends on
+LEAN_MODULES = ["Properties.C11", "Properties.Core", "Properties.Prov.Hints", "Properties.Prov.Decorate", "Properties.CoreHints", "Properties.CoreWrap", "Properties.CoreClasses", "Properties.Prov.Expand", "Properties.CoreResolve"]
 RULE = (
     "exhaustive over flat tuple hints of length 1..4 (quick) / 1..5 (thorough) with annotated / plain positions mixed (plain = `int` or `Annotated[int, 'count']`), as parameter and as "
     "return, each element conforming, violating its own literal, or violating a binding shared with another parameter (a), values of the "
